@@ -47,11 +47,24 @@ for d in sorted(glob.glob(os.path.join(wt, f"seeded_{prop}_*"))):
     for f in ("patch.diff", "demo.py"):
         shutil.copy(os.path.join(d, f), os.path.join(dst, f))
     meta = json.load(open(os.path.join(d, "meta.json")))
+    run_checks = checks
+    if checks == ["auto"]:
+        import re as _re
+        RELATED = {"C01": ["C01", "C14"], "C02": ["C02", "C19"], "C04": ["C04", "C08"], "C05": ["C05", "C06"], "C06": ["C06", "C05"], "C08": ["C08"],
+                   "C09": ["C09"], "C10": ["C10"], "C11": ["C11"], "C13": ["C13", "C14"], "C14": ["C14", "C13"], "C15": ["C15"], "C16": ["C16"],
+                   "C19": ["C19"], "C20": ["C20"], "C03": ["C03", "C07"], "C07": ["C07", "C01"]}
+        ids = _re.findall(r"C\d\d", str(meta.get("property", "")))
+        run_checks = []
+        for i in ids:
+            for c in RELATED.get(i, [i]):
+                if c not in run_checks:
+                    run_checks.append(c)
+        run_checks = run_checks or ["C01", "C11"]
     # run our checks against /repo with the patch applied
     assert sh(f"git -C /repo apply {patch}").returncode == 0, "patch does not apply to /repo"
     det = {}
     try:
-        for c in checks:
+        for c in run_checks:
             t0 = time.time()
             rc = sh(f"./check {c} --tier quick", cwd="/verif", timeout=3000)
             viol = [l for l in rc.stdout.splitlines() if l.startswith("  C")][:4]
